@@ -5,25 +5,417 @@ package agreement
 import (
 	"github.com/algorand/go-algorand/config"
 	"github.com/algorand/go-algorand/config/bounds"
+	"github.com/algorand/go-algorand/crypto"
+	"github.com/algorand/go-algorand/data/committee"
 	vr "github.com/algorand/go-algorand/internal/verifrt"
 	"github.com/algorand/go-algorand/protocol"
 	"github.com/algorand/msgp/msgp"
 )
 
-// exploratory
+// C41: decoding untrusted bytes either succeeds or returns an error; it never
+// crashes and never builds a collection larger than the declared allocbound.
 //
-//verif:harness prop=C41 reach=done,ok,err unwind=16 budget=200
-func VerifC41ProposalValueRaw() {
+// Code under test: the generated UnmarshalMsgWithState of proposalValue,
+// rawVote, unauthenticatedVote, voteAuthenticator, equivocationVoteAuthenticator,
+// unauthenticatedBundle (package agreement), crypto.OneTimeSignature,
+// committee.UnauthenticatedCredential, and everything they call: crypto.Digest,
+// crypto.VrfProof, basics.Address, basics.Round, and the REAL msgp byte readers
+// (github.com/algorand/msgp: ReadMapHeaderBytes, ReadArrayHeaderBytes,
+// ReadMapKeyZC, ReadStringZC, readBytesBytes, ReadExactBytes, ReadUint64Bytes...),
+// entered exactly as protocol.DecodeMsgp does (UnmarshalMsg =
+// UnmarshalMsgWithState(b, msgp.DefaultUnmarshalState)).
+//
+// Inputs: generated from the types' schemas, see zz_verif_c41gen.go (raw symbolic
+// buffers of a few bytes: zz_verif_c41raw.go). Checked on every input:
+//   c41.*  no Go panic (automatic: a panic on a feasible path is a violation)
+//   c41.allocbound                  after the call, error or not, every slice of
+//                                   the object has len and cap <= its allocbound
+//   c41.accepts-exactly-wellformed  error <=> the reference grammar rejects
+//   c41.remaining-is-suffix         on success the bytes returned are exactly the
+//                                   input's tail after the object (consumed +
+//                                   remaining = input)
+//   c41.decoded-value               on success every leaf of the object holds what
+//                                   the input denotes, untouched fields keep
+//                                   their previous value, slice lengths as announced
+//   c41.depth                       with AllowableDepth d the canonical encoding
+//                                   is accepted iff d >= the type's nesting depth
+//
+// An oversized count must be refused BEFORE the allocation: a decoder that
+// allocates first shows up either as c41.allocbound (count = bound+1: the slice
+// is in the object when the error is returned) or as an engine refusal
+// ("make of N elements", counts 2^31 / 2^32-1) = inconclusive, never as a pass.
+
+// --- schemas (codec tags; fields in declaration order) -----------------------
+
+func verifC41SchemaPV() *verifC41Node {
+	return verifC41S("oper", verifC41U(), "oprop", verifC41B(32), "dig", verifC41B(32), "encdig", verifC41B(32))
+}
+
+func verifC41SchemaOTS() *verifC41Node {
+	return verifC41S("s", verifC41B(64), "p", verifC41B(32), "ps", verifC41B(64), "p2", verifC41B(32), "p1s", verifC41B(64), "p2s", verifC41B(64))
+}
+
+func verifC41SchemaCred() *verifC41Node { return verifC41S("pf", verifC41B(80)) }
+
+func verifC41SchemaRawVote() *verifC41Node {
+	return verifC41S("snd", verifC41B(32), "rnd", verifC41U(), "per", verifC41U(), "step", verifC41U(), "prop", verifC41SchemaPV())
+}
+
+func verifC41SchemaUV() *verifC41Node {
+	return verifC41S("r", verifC41SchemaRawVote(), "cred", verifC41SchemaCred(), "sig", verifC41SchemaOTS())
+}
+
+func verifC41SchemaVA() *verifC41Node {
+	return verifC41S("snd", verifC41B(32), "cred", verifC41SchemaCred(), "sig", verifC41SchemaOTS())
+}
+
+func verifC41SchemaEVA() *verifC41Node {
+	return verifC41S("snd", verifC41B(32), "cred", verifC41SchemaCred(),
+		"sig", verifC41Arr(2, verifC41SchemaOTS()), "props", verifC41Arr(2, verifC41SchemaPV()))
+}
+
+func verifC41SchemaBundle(bound int) *verifC41Node {
+	return verifC41S("rnd", verifC41U(), "per", verifC41U(), "step", verifC41U(), "prop", verifC41SchemaPV(),
+		"vote", verifC41Sl(bound, verifC41SchemaVA()), "eqv", verifC41Sl(bound, verifC41SchemaEVA()))
+}
+
+// --- per type: the "dirty" object decoded into, and the visit of its leaves ----
+
+func verifC41Fill(b []byte) {
+	for i := range b {
+		b[i] = verifC41PreB
+	}
+}
+
+func verifC41DirtyPV(v *proposalValue) {
+	v.OriginalPeriod = verifC41PreU
+	verifC41Fill(v.OriginalProposer[:])
+	verifC41Fill(v.BlockDigest[:])
+	verifC41Fill(v.EncodingDigest[:])
+}
+
+func verifC41VisitPV(c *verifC41Check, p string, v *proposalValue) {
+	c.u(p+".oper", uint64(v.OriginalPeriod))
+	c.b(p+".oprop", v.OriginalProposer[:])
+	c.b(p+".dig", v.BlockDigest[:])
+	c.b(p+".encdig", v.EncodingDigest[:])
+}
+
+func verifC41DirtyOTS(v *crypto.OneTimeSignature) {
+	verifC41Fill(v.Sig[:])
+	verifC41Fill(v.PK[:])
+	verifC41Fill(v.PKSigOld[:])
+	verifC41Fill(v.PK2[:])
+	verifC41Fill(v.PK1Sig[:])
+	verifC41Fill(v.PK2Sig[:])
+}
+
+func verifC41VisitOTS(c *verifC41Check, p string, v *crypto.OneTimeSignature) {
+	c.b(p+".s", v.Sig[:])
+	c.b(p+".p", v.PK[:])
+	c.b(p+".ps", v.PKSigOld[:])
+	c.b(p+".p2", v.PK2[:])
+	c.b(p+".p1s", v.PK1Sig[:])
+	c.b(p+".p2s", v.PK2Sig[:])
+}
+
+func verifC41DirtyCred(v *committee.UnauthenticatedCredential) { verifC41Fill(v.Proof[:]) }
+
+func verifC41VisitCred(c *verifC41Check, p string, v *committee.UnauthenticatedCredential) {
+	c.b(p+".pf", v.Proof[:])
+}
+
+func verifC41DirtyRawVote(v *rawVote) {
+	verifC41Fill(v.Sender[:])
+	v.Round, v.Period, v.Step = verifC41PreU, verifC41PreU, verifC41PreU
+	verifC41DirtyPV(&v.Proposal)
+}
+
+func verifC41VisitRawVote(c *verifC41Check, p string, v *rawVote) {
+	c.b(p+".snd", v.Sender[:])
+	c.u(p+".rnd", uint64(v.Round))
+	c.u(p+".per", uint64(v.Period))
+	c.u(p+".step", uint64(v.Step))
+	verifC41VisitPV(c, p+".prop", &v.Proposal)
+}
+
+func verifC41VisitVA(c *verifC41Check, p string, v *voteAuthenticator) {
+	c.b(p+".snd", v.Sender[:])
+	verifC41VisitCred(c, p+".cred", &v.Cred)
+	verifC41VisitOTS(c, p+".sig", &v.Sig)
+}
+
+func verifC41VisitEVA(c *verifC41Check, p string, v *equivocationVoteAuthenticator) {
+	c.b(p+".snd", v.Sender[:])
+	verifC41VisitCred(c, p+".cred", &v.Cred)
+	verifC41VisitOTS(c, p+".sig.0", &v.Sigs[0])
+	verifC41VisitOTS(c, p+".sig.1", &v.Sigs[1])
+	verifC41VisitPV(c, p+".props.0", &v.Proposals[0])
+	verifC41VisitPV(c, p+".props.1", &v.Proposals[1])
+}
+
+// --- driver ------------------------------------------------------------------------
+
+type verifC41Case struct {
+	g        *verifC41Gen
+	in       []byte
+	st       msgp.UnmarshalState
+	trailing int
+	bound    int
+	mode     int
+}
+
+// modes: 0 one node under attack; 1 truncations of the canonical encoding;
+// 2 depth limit. depthNeeded = number of nested codec calls the canonical
+// encoding of the type goes through (from the type's structure).
+func verifC41Input(schema func(bound int) *verifC41Node, attackDepth, depthNeeded int) *verifC41Case {
+	// the allocbounds are variables set by package config's initializer
 	_ = config.Consensus[protocol.ConsensusCurrentVersion]
-	vr.Assert("c41.bound-initialised", bounds.MaxVoteThreshold > 0)
-	in := vr.Bytes("in", vr.Param(5, 10))
-	var v proposalValue
-	rem, err := v.UnmarshalMsgWithState(in, msgp.DefaultUnmarshalState)
-	if err == nil {
-		vr.Assert("c41.rem", len(rem) <= len(in))
-		vr.Reach("ok")
+	bound := bounds.MaxVoteThreshold
+	vr.Assert("c41.bound-initialised", bound > 1000 && bound < 1<<15)
+	s := schema(bound)
+	c := &verifC41Case{bound: bound, st: msgp.DefaultUnmarshalState}
+	g := &verifC41Gen{attack: -1, maxDepth: attackDepth, ok: true, full: vr.Param(0, 1) == 1}
+	c.g = g
+	c.mode = vr.Choice("mode", 3)
+	switch c.mode {
+	case 0:
+		g.attack = vr.Choice("node", s.count(0, attackDepth))
+		g.gen(s, "", 0)
+		c.in = g.out
+		if g.ok && g.attack%2 == 1 {
+			// what follows the object is not the decoder's business
+			c.in = append(c.in, vr.U8("trailing"))
+			c.trailing = 1
+		}
+	case 1:
+		g.zeroPre = true
+		g.gen(s, "", 0)
+		k := len(g.out)
+		if i := vr.Choice("cut", len(g.cuts)+1); i < len(g.cuts) {
+			k = g.cuts[i]
+		}
+		if k < len(g.out) {
+			g.reject("truncated")
+		}
+		c.in = g.out[:k:k]
+	case 2:
+		g.zeroPre = true
+		g.gen(s, "", 0)
+		c.in = g.out
+		d := vr.Choice("depth", depthNeeded+2)
+		c.st.AllowableDepth = uint64(d)
+		if d < depthNeeded {
+			g.reject("depth-exceeded")
+		}
+	}
+	return c
+}
+
+func (c *verifC41Case) check() *verifC41Check { return &verifC41Check{g: c.g, lens: true} }
+
+func (c *verifC41Case) verdict(rem []byte, err error, k *verifC41Check) {
+	g := c.g
+	vr.Assert("c41.allocbound", k.max <= c.bound)
+	if c.mode == 2 {
+		vr.Assert("c41.depth", (err == nil) == g.ok)
 	} else {
-		vr.Reach("err")
+		vr.Assert("c41.accepts-exactly-wellformed", (err == nil) == g.ok)
+	}
+	if err == nil {
+		n := len(rem)
+		vr.Assert("c41.remaining-is-suffix", n == c.trailing && n <= len(c.in) && verifC41Same(rem, c.in[len(c.in)-n:]))
+		vr.Assert("c41.decoded-value", k.diff == 0 && k.lens)
+		switch c.mode {
+		case 0:
+			vr.Reach("accepted-variant")
+		case 1:
+			vr.Reach("accepted-canonical")
+		case 2:
+			vr.Reach("depth-sufficient")
+		}
+	} else {
+		switch c.mode {
+		case 0:
+			vr.Reach("rejected-variant")
+		case 1:
+			vr.Reach("truncated")
+		case 2:
+			vr.Reach("depth-exceeded")
+		}
+		if g.overBound {
+			vr.Reach("over-allocbound-refused")
+		}
 	}
 	vr.Reach("done")
+}
+
+const verifC41Reach = "done,accepted-variant,rejected-variant,accepted-canonical,truncated,depth-sufficient,depth-exceeded"
+
+//verif:harness prop=C41 reach=done,accepted-variant,rejected-variant,accepted-canonical,truncated,depth-sufficient,depth-exceeded unwind=16 budget=200 thorough.budget=1500
+func VerifC41ProposalValue() {
+	c := verifC41Input(func(int) *verifC41Node { return verifC41SchemaPV() }, 9, 2)
+	var v proposalValue
+	if !c.g.zeroPre {
+		verifC41DirtyPV(&v)
+	}
+	rem, err := v.UnmarshalMsgWithState(c.in, c.st)
+	k := c.check()
+	verifC41VisitPV(k, "", &v)
+	c.verdict(rem, err, k)
+}
+
+//verif:harness prop=C41 reach=done,accepted-variant,rejected-variant,accepted-canonical,truncated,depth-sufficient,depth-exceeded unwind=16 budget=200 thorough.budget=1500
+func VerifC41OneTimeSignature() {
+	c := verifC41Input(func(int) *verifC41Node { return verifC41SchemaOTS() }, 9, 1)
+	var v crypto.OneTimeSignature
+	if !c.g.zeroPre {
+		verifC41DirtyOTS(&v)
+	}
+	rem, err := v.UnmarshalMsgWithState(c.in, c.st)
+	k := c.check()
+	verifC41VisitOTS(k, "", &v)
+	c.verdict(rem, err, k)
+}
+
+//verif:harness prop=C41 reach=done,accepted-variant,rejected-variant,accepted-canonical,truncated,depth-sufficient,depth-exceeded unwind=16 budget=200 thorough.budget=1500
+func VerifC41Credential() {
+	c := verifC41Input(func(int) *verifC41Node { return verifC41SchemaCred() }, 9, 2)
+	var v committee.UnauthenticatedCredential
+	if !c.g.zeroPre {
+		verifC41DirtyCred(&v)
+	}
+	rem, err := v.UnmarshalMsgWithState(c.in, c.st)
+	k := c.check()
+	verifC41VisitCred(k, "", &v)
+	c.verdict(rem, err, k)
+}
+
+// rawVote{snd, rnd, per, step, prop}: own header, keys and direct fields under
+// attack in the quick tier (proposalValue has its own harness), every node in
+// the thorough tier.
+//
+//verif:harness prop=C41 reach=done,accepted-variant,rejected-variant,accepted-canonical,truncated,depth-sufficient,depth-exceeded unwind=16 budget=200 thorough.budget=1500
+func VerifC41RawVote() {
+	c := verifC41Input(func(int) *verifC41Node { return verifC41SchemaRawVote() }, vr.Param(1, 9), 3)
+	var v rawVote
+	if !c.g.zeroPre {
+		verifC41DirtyRawVote(&v)
+	}
+	rem, err := v.UnmarshalMsgWithState(c.in, c.st)
+	k := c.check()
+	verifC41VisitRawVote(k, "", &v)
+	c.verdict(rem, err, k)
+}
+
+//verif:harness prop=C41 reach=done,accepted-variant,rejected-variant,accepted-canonical,truncated,depth-sufficient,depth-exceeded unwind=16 budget=200 thorough.budget=1500
+func VerifC41UnauthenticatedVote() {
+	c := verifC41Input(func(int) *verifC41Node { return verifC41SchemaUV() }, vr.Param(1, 9), 4)
+	var v unauthenticatedVote
+	if !c.g.zeroPre {
+		verifC41DirtyRawVote(&v.R)
+		verifC41DirtyCred(&v.Cred)
+		verifC41DirtyOTS(&v.Sig)
+	}
+	rem, err := v.UnmarshalMsgWithState(c.in, c.st)
+	k := c.check()
+	verifC41VisitRawVote(k, ".r", &v.R)
+	verifC41VisitCred(k, ".cred", &v.Cred)
+	verifC41VisitOTS(k, ".sig", &v.Sig)
+	c.verdict(rem, err, k)
+}
+
+//verif:harness prop=C41 reach=done,accepted-variant,rejected-variant,accepted-canonical,truncated,depth-sufficient,depth-exceeded unwind=16 budget=200 thorough.budget=1500
+func VerifC41VoteAuthenticator() {
+	c := verifC41Input(func(int) *verifC41Node { return verifC41SchemaVA() }, vr.Param(1, 9), 3)
+	var v voteAuthenticator
+	if !c.g.zeroPre {
+		verifC41Fill(v.Sender[:])
+		verifC41DirtyCred(&v.Cred)
+		verifC41DirtyOTS(&v.Sig)
+	}
+	rem, err := v.UnmarshalMsgWithState(c.in, c.st)
+	k := c.check()
+	verifC41VisitVA(k, "", &v)
+	c.verdict(rem, err, k)
+}
+
+// The fixed-size arrays Sigs [2] and Proposals [2] are decoded in line: the
+// count check "> 2" is the analogue of an allocbound.
+//
+//verif:harness prop=C41 reach=done,accepted-variant,rejected-variant,accepted-canonical,truncated,depth-sufficient,depth-exceeded unwind=16 budget=200 thorough.budget=1500
+func VerifC41EquivocationVoteAuthenticator() {
+	c := verifC41Input(func(int) *verifC41Node { return verifC41SchemaEVA() }, vr.Param(1, 9), 3)
+	var v equivocationVoteAuthenticator
+	if !c.g.zeroPre {
+		verifC41Fill(v.Sender[:])
+		verifC41DirtyCred(&v.Cred)
+		verifC41DirtyOTS(&v.Sigs[0])
+		verifC41DirtyOTS(&v.Sigs[1])
+		verifC41DirtyPV(&v.Proposals[0])
+		verifC41DirtyPV(&v.Proposals[1])
+	}
+	rem, err := v.UnmarshalMsgWithState(c.in, c.st)
+	k := c.check()
+	verifC41VisitEVA(k, "", &v)
+	c.verdict(rem, err, k)
+}
+
+func verifC41VisitBundle(k *verifC41Check, v *unauthenticatedBundle) {
+	k.u(".rnd", uint64(v.Round))
+	k.u(".per", uint64(v.Period))
+	k.u(".step", uint64(v.Step))
+	verifC41VisitPV(k, ".prop", &v.Proposal)
+	k.slice(".vote", len(v.Votes), cap(v.Votes))
+	for i := range v.Votes {
+		if i < 2 {
+			verifC41VisitVA(k, ".vote#"+string(rune('0'+i)), &v.Votes[i])
+		}
+	}
+	k.slice(".eqv", len(v.EquivocationVotes), cap(v.EquivocationVotes))
+	for i := range v.EquivocationVotes {
+		if i < 2 {
+			verifC41VisitEVA(k, ".eqv#"+string(rune('0'+i)), &v.EquivocationVotes[i])
+		}
+	}
+}
+
+// unauthenticatedBundle: Votes and EquivocationVotes carry
+// allocbound=bounds.MaxVoteThreshold. The object decoded into has nil slices.
+//
+//verif:harness prop=C41 reach=done,accepted-variant,rejected-variant,accepted-canonical,truncated,depth-sufficient,depth-exceeded,over-allocbound-refused unwind=16 budget=250 thorough.budget=2400
+func VerifC41UnauthenticatedBundle() {
+	c := verifC41Input(verifC41SchemaBundle, vr.Param(1, 9), 4)
+	var v unauthenticatedBundle
+	if !c.g.zeroPre {
+		v.Round, v.Period, v.Step = verifC41PreU, verifC41PreU, verifC41PreU
+		verifC41DirtyPV(&v.Proposal)
+	}
+	rem, err := v.UnmarshalMsgWithState(c.in, c.st)
+	k := c.check()
+	verifC41VisitBundle(k, &v)
+	c.verdict(rem, err, k)
+}
+
+// The same with slices that already have capacity (a decoder object that is
+// reused): a count within the capacity re-slices instead of allocating; the
+// elements then keep what they held. Only the slice classes are of interest.
+//
+//verif:harness prop=C41 reach=done,accepted-variant,rejected-variant,over-allocbound-refused unwind=16 budget=250 thorough.budget=2400
+func VerifC41UnauthenticatedBundleReused() {
+	_ = config.Consensus[protocol.ConsensusCurrentVersion]
+	bound := bounds.MaxVoteThreshold
+	s := verifC41SchemaBundle(bound)
+	g := &verifC41Gen{attack: -1, maxDepth: 1, ok: true, zeroPre: true}
+	// nodes at depth 1 in canonical (sorted) order: eqv=1, per, prop, rnd, step, vote=6
+	g.attack = []int{1, 6}[vr.Choice("which", 2)]
+	g.gen(s, "", 0)
+	c := &verifC41Case{g: g, in: g.out, st: msgp.DefaultUnmarshalState, bound: bound}
+	var v unauthenticatedBundle
+	v.Votes = make([]voteAuthenticator, 1, 2)
+	v.EquivocationVotes = make([]equivocationVoteAuthenticator, 0, 2)
+	rem, err := v.UnmarshalMsgWithState(c.in, c.st)
+	k := c.check()
+	verifC41VisitBundle(k, &v)
+	c.verdict(rem, err, k)
 }
